@@ -10,6 +10,7 @@ import (
 	"time"
 
 	"github.com/jirenius/go-res/logger"
+	"github.com/jirenius/go-res/verifhook"
 	"github.com/jirenius/timerqueue"
 	nats "github.com/nats-io/nats.go"
 )
@@ -682,6 +683,7 @@ func (s *Service) serve(nc Conn) error {
 	}
 
 	atomic.StoreInt32(&s.state, stateStarted)
+	verifhook.Note("serve-started", "", s.workerCount)
 
 	err = s.subscribe()
 	if err != nil {
@@ -713,12 +715,14 @@ func (s *Service) Shutdown() error {
 	if !atomic.CompareAndSwapInt32(&s.state, stateStarted, stateStopping) {
 		return errNotStarted
 	}
+	verifhook.Note("shutdown-begin", "", 0)
 
 	s.infof("Stopping service...")
 	s.close()
 
 	// Wait for all workers to be done
 	s.wg.Wait()
+	verifhook.Note("shutdown-waited", "", 0)
 
 	s.mu.Lock()
 	s.inCh = nil
@@ -726,6 +730,7 @@ func (s *Service) Shutdown() error {
 	s.mu.Unlock()
 
 	atomic.StoreInt32(&s.state, stateStopped)
+	verifhook.Note("shutdown-stopped", "", 0)
 
 	s.infof("Stopped")
 	return nil
@@ -735,8 +740,11 @@ func (s *Service) Shutdown() error {
 func (s *Service) close() {
 	s.mu.Lock()
 	s.workqueue = nil
+	verifhook.Note("close-nil", "", 0)
 	s.mu.Unlock()
+	verifhook.Gate("close-after-nil")
 	s.workcond.Broadcast()
+	verifhook.Note("close-broadcast", "", 0)
 
 	s.nc.Close()
 	close(s.inCh)
@@ -748,6 +756,7 @@ func (s *Service) Reset(resources []string, access []string) {
 		s.errorf("Failed to reset: service not started")
 		return
 	}
+	verifhook.Gate("publish-checked")
 
 	s.reset(resources, access)
 }
@@ -784,6 +793,7 @@ func (s *Service) ResetAll() {
 		s.errorf("Failed to reset: service not started")
 		return
 	}
+	verifhook.Gate("publish-checked")
 
 	s.setDefaultOwnership()
 
@@ -802,6 +812,7 @@ func (s *Service) TokenEvent(cid string, token interface{}) {
 		s.errorf("Failed to send token event: service not started")
 		return
 	}
+	verifhook.Gate("publish-checked")
 
 	if !isValidPart(cid) {
 		panic(`res: invalid connection ID`)
@@ -819,6 +830,7 @@ func (s *Service) TokenEventWithID(cid string, tokenID string, token interface{}
 		s.errorf("Failed to send token event: service not started")
 		return
 	}
+	verifhook.Gate("publish-checked")
 
 	if !isValidPart(cid) {
 		panic(`res: invalid connection ID`)
@@ -835,6 +847,7 @@ func (s *Service) TokenReset(subject string, tokenID ...string) {
 		s.errorf("Failed to send token reset event: service not started")
 		return
 	}
+	verifhook.Gate("publish-checked")
 
 	if subject == "" || !isValidPath(subject) {
 		panic(`res: invalid token reset subject`)
@@ -974,6 +987,7 @@ func (s *Service) handleRequest(m *nats.Msg) {
 
 	s.runWith(group, func() {
 		s.processRequest(m, rtype, rname, method, mh)
+		verifhook.Note("request-done", subj, 0)
 	})
 }
 
@@ -981,13 +995,16 @@ func (s *Service) handleRequest(m *nats.Msg) {
 // defined by the worker ID (wid).
 func (s *Service) runWith(wid string, cb func()) {
 	if atomic.LoadInt32(&s.state) != stateStarted {
+		verifhook.Note("enq-refused", wid, 0)
 		return
 	}
+	verifhook.Gate("runwith-checked")
 
 	s.mu.Lock()
 	// The service may have begun closing since the state was checked. Adding
 	// to a nil workqueue would revive it and leave the workers waiting forever.
 	if s.workqueue == nil {
+		verifhook.Note("enq-closing", wid, 0)
 		s.mu.Unlock()
 		return
 	}
@@ -1009,11 +1026,14 @@ func (s *Service) runWith(wid string, cb func()) {
 			s.rwork[wid] = w
 		}
 		s.workqueue = append(s.workqueue, w)
+		verifhook.Note("enq-new", wid, 0)
 		s.mu.Unlock()
+		verifhook.Gate("runwith-before-signal")
 		s.workcond.Signal()
 	} else {
 		// Append callback to existing work queue
 		w.queue = append(w.queue, cb)
+		verifhook.Note("enq-append", wid, 0)
 		s.mu.Unlock()
 	}
 }
@@ -1096,6 +1116,7 @@ func (s *Service) event(subj string, data interface{}) {
 func (s *Service) publish(subj string, payload []byte) error {
 	nc := s.Conn()
 	if nc == nil {
+		verifhook.Note("publish-refused", subj, 0)
 		return errNotStarted
 	}
 	return nc.Publish(subj, payload)
@@ -1204,6 +1225,7 @@ func (s *Service) processRequest(m *nats.Msg, rtype, rname, method string, mh *M
 
 func (s *Service) queryEventExpire(v interface{}) {
 	qe := v.(*queryEvent)
+	verifhook.Gate("query-expire")
 	qe.sub.Drain()
 	// Have the query listener make the final callback call and stop.
 	close(qe.done)
